@@ -54,6 +54,7 @@ class Prog:
         self.extra_files = {}     # further source files of the program (include files): name -> text
         self.text_table_order = None   # order in which the rule tables are WRITTEN (indices into self.tables, which keeps
                                   # the order in which the passes run: substitution before positioning)
+        self.pass_opts = {}       # (table index, pass index) -> text after `pass(n)`, e.g. "{CollisionFix = 2}"
         self.pass_split = {}      # (table index, pass index) -> number of rules kept in the main file; the others go to an
                                   # include file that continues the pass (its lines are numbered from 1 again)
         self.gattr = None
@@ -82,7 +83,7 @@ class Prog:
         for ttype, passes in ([self.tables[k] for k in self.text_table_order] if self.text_table_order else self.tables):
             out.append("table(%s)" % ttype)
             for pi, rules in enumerate(passes):
-                out.append("pass(%d)" % (pi + 1))
+                out.append("pass(%d) %s" % (pi + 1, self.pass_opts.get((self.tables.index((ttype, passes)), pi), "")))
                 keep = self.pass_split.get((self.tables.index((ttype, passes)), pi))
                 inc = None
                 for ri, r in enumerate(rules):
@@ -1079,6 +1080,26 @@ def add_pos_table_first(rng, prog):
         rules.append(Rule(items))
     prog.tables.append(("pos", [rules]))
     prog.text_table_order = [len(prog.tables) - 1] + list(range(len(prog.tables) - 1))
+
+
+def add_collision_pass_then_rules(rng, prog):
+    """A positioning table whose first pass only fixes collisions (no rules) and whose later passes have rules that use
+    classes of the substitution table."""
+    used = [it.cls for (_t, ps) in prog.tables for rules in ps for r in rules for it in r.items if it.cls not in (None, "ANY", "#")]
+    if not used or any(t == "pos" for t, _ in prog.tables):
+        return
+    passes = [[]]
+    for _p in range(rng.randint(1, 2)):
+        rules = []
+        for _ in range(rng.randint(1, 2)):
+            it = Item(cls=rng.choice(used), mod=True)
+            v = rng.choice([40, 75, -30])
+            it.attrs.append(("shift.y", "=", (str(v) if v >= 0 else "(%d)" % v), {"k": "lit", "v": v}))
+            rules.append(Rule([it]))
+        passes.append(rules)
+    prog.tables.append(("pos", passes))
+    prog.pass_opts[(len(prog.tables) - 1, 0)] = "{CollisionFix = %d}" % rng.choice([1, 2, 3])
+    prog.glyph_stmts = list(prog.glyph_stmts) + ["cCollAll = glyphid(2..%d) {collision.flags = 1};" % (prog.nglyphs - 1)]
 
 
 def add_pass_splits(rng, prog, prob=0.6):
